@@ -316,3 +316,47 @@ Example C07_ex_write :
   /\ write_to_newick C07_nw_o 3 C07_nw_t = (Err, bs "('x")
   /\ fst (write_to_fastq 0 {| Fastq.name := []; Fastq.seq := []; Fastq.quals := [] |}) = Err.
 Proof. vm_compute. repeat split. Qed.
+
+(* ---- the same, for the readers as translated from the Go source ---------------------------------------
+   gen/ImpGen.v holds Reader of fasta, bed, sam and newick as translated on this run; a stream that
+   delivers the first k bytes of a well-formed file and then fails (terminal code 2) makes the
+   translated reader yield a prefix of the file's records and then exactly one error item.
+   (Composition of the theorems above with the C01/C03/C04/C05 ..._reader_is_source theorems; the
+   fastq reader is tied to its source over the Scanner's tokens, C02_reader_is_source.) *)
+From Bio.gen Require ImpGen.
+From Bio.Model Require GoSem.
+From Bio.Proofs Require ImpProofsJ ImpProofsL ImpProofsQ ImpProofsR ImpProofsT.
+
+Theorem C07_fault_prefix_fasta_is_source : forall rs k fuel, Forall FastaSpec.fa_ok rs ->
+  (length (firstn k (fasta_file rs)) + 2 < fuel)%nat ->
+  exists j, (j <= length rs)%nat /\
+    ImpGen.imp_fastard_Reader fuel (GoSem.Stream (firstn k (fasta_file rs)) 2%Z None)
+    = GoSem.Ret (GoSem.Stream [] 2%Z None, map (ImpProofsJ.fa_item TErr) (map Rec (firstn j rs) ++ [ErrItem])).
+Proof. exact ImpProofsT.fasta_fault_prefix_src. Qed.
+Print Assumptions C07_fault_prefix_fasta_is_source.
+
+Theorem C07_fault_prefix_bed_is_source : forall n bs w k fuel,
+  Forall (fun b => BedSpec.bed_ok b /\ Bed.b_n b = n) bs -> bed_file bs = Ok w ->
+  (length (firstn k w) + 2 < fuel)%nat ->
+  exists j st, (j <= length bs)%nat /\
+    ImpGen.imp_bed_Reader fuel (GoSem.Stream (firstn k w) 2%Z None)
+    = GoSem.Ret (st, map ImpProofsL.bed_item (map (fun b => Rec (BedSpec.first_n b)) (firstn j bs) ++ [ErrItem])).
+Proof. exact ImpProofsT.bed_fault_prefix_src. Qed.
+Print Assumptions C07_fault_prefix_bed_is_source.
+
+Theorem C07_fault_prefix_sam_is_source : forall o hs rs k fuel,
+  Forall SamSpec.header_ok hs -> Forall (SamSpec.sam_ok o) rs ->
+  (length (firstn k (sam_file o hs rs)) + 1 < fuel)%nat ->
+  exists rs' j st, Sam.reader o (sam_file o hs rs) TEOF = map Rec rs' /\ (j <= length rs')%nat /\
+    ImpGen.imp_samrd_Reader fuel o (GoSem.Stream (firstn k (sam_file o hs rs)) 2%Z None)
+    = GoSem.Ret (st, map ImpProofsQ.sr_item (map Rec (firstn j rs') ++ [ErrItem])).
+Proof. exact ImpProofsT.sam_fault_prefix_src. Qed.
+Print Assumptions C07_fault_prefix_sam_is_source.
+
+Theorem C07_fault_prefix_newick_is_source : forall o ts k fuel h, Forall (NewickSpec.floats_ok o) ts ->
+  (length (firstn k (newick_file o ts)) + 2 < fuel)%nat ->
+  exists j st h' out, (j <= length ts)%nat /\
+    ImpGen.imp_newickrd_Reader fuel o h (GoSem.Stream (firstn k (newick_file o ts)) 2%Z None) = GoSem.Ret (st, (h', out)) /\
+    Forall2 (ImpProofsR.item_holds h') (map (fun t => Rec (NewickSpec.norm t)) (firstn j ts) ++ [ErrItem]) out.
+Proof. exact ImpProofsT.newick_fault_prefix_src. Qed.
+Print Assumptions C07_fault_prefix_newick_is_source.
